@@ -255,8 +255,13 @@ def model_lines(kind, point, V, Z, I, Y, which, p, m):
             return 'dc {%s}' % d
         return 's {%s}' % x
     if which == 'thev':
-        return ['Vth_ ath_ %s %s' % (m, src(V)), 'Zth_ %s ath_ {%s}' % (p, Z)]
-    return ['Ino_ %s %s %s' % (p, m, src(I)), 'Yno_ %s %s {%s}' % (p, m, Y)]
+        # a model without series impedance (thevenin() returned a bare V) is a wire, not a 0 ohm "Z" (Y = 1/0)
+        zl = 'W %s ath_' % p if sp.sympify(Z) == 0 else 'Zth_ %s ath_ {%s}' % (p, Z)
+        return ['Vth_ ath_ %s %s' % (m, src(V)), zl]
+    out = ['Ino_ %s %s %s' % (p, m, src(I))]
+    if sp.sympify(Y) != 0:
+        out.append('Yno_ %s %s {%s}' % (p, m, Y))
+    return out
 
 
 def run_net(case, point):
@@ -278,6 +283,14 @@ def run_net(case, point):
         kind = kinds[0]
         res['kind'] = kind
         res['dumps'] = {'orig': dump_sub(subs[kind], point)}
+        if kind == 'dc':
+            res['dumps']['lap'] = dump_sub(SubNetlist(cd.expand(), 'transient'), point)
+    elif kinds == ['time']:
+        # resistive circuit: Lcapy analyses it in the time domain; the model uses the equivalent single-kind analysis
+        kind = 'dc' if case.get('profile') == 'dc' else 'transient'
+        res['kind'] = kind
+        res['kind_lcapy'] = 'time'
+        res['dumps'] = {'orig': dump_sub(SubNetlist(cd.expand(), kind), point)}
         if kind == 'dc':
             res['dumps']['lap'] = dump_sub(SubNetlist(cd.expand(), 'transient'), point)
     elif len(kinds) == 0:
